@@ -8,6 +8,7 @@ import (
 	"fmt"
 	"net"
 	"strings"
+	"sync"
 	"testing"
 
 	"github.com/hashicorp/nodeenrollment"
@@ -359,6 +360,103 @@ func TestProp_ForgedState(t *testing.T) {
 		}
 		if acc != nil && acc.Authenticated() {
 			vkit.Violate(t, prop, "C16/unverified-state-exposed/"+how, "a connection carrying state that does not verify under the node's key was returned as authenticated", map[string]any{"state_signature": how, "lookup_by_node_id": byNodeID})
+		}
+	})
+}
+
+// TestProp_ConcurrentMetadata: the same exactness under concurrency. Several nodes
+// dial one listener at the same moment, each with its own state and protocol names;
+// the listener was configured with an option slice that has spare capacity and is
+// served by several Accept goroutines. Every connection must report its own node's
+// state together with its own node's protocols (built with the race detector).
+func TestProp_ConcurrentMetadata(t *testing.T) {
+	rec := vkit.Rec(prop)
+	vkit.SetRapidChecks(vkit.N(12))
+	w := vkit.NewWorld(vkit.WorldConfig{})
+	defer w.Close()
+	var nodes []*vkit.Actor
+	for i := 0; i < 6; i++ {
+		a := vkit.NewActor(fmt.Sprint("n", i))
+		if err := w.Enroll(a); err != nil {
+			t.Fatalf("enroll: %v", err)
+		}
+		nodes = append(nodes, a)
+	}
+	rapid.Check(t, func(t *rapid.T) {
+		spare := rapid.IntRange(0, 6).Draw(t, "spareCapacity")
+		base := w.O()
+		opts := make([]nodeenrollment.Option, 0, len(base)+1+spare)
+		opts = append(append(opts, base...), nodeenrollment.WithNotBeforeClockSkew(nodeenrollment.DefaultNotBeforeClockSkewDuration))
+		acceptors := rapid.IntRange(2, 6).Draw(t, "acceptors")
+		rig := vkit.NewRig(w, vkit.RigConfig{Options: opts, Acceptors: acceptors})
+		defer rig.Close()
+		k := rapid.IntRange(2, 6).Draw(t, "concurrentNodes")
+		rounds := rapid.IntRange(1, 4).Draw(t, "rounds")
+		for r := 0; r < rounds; r++ {
+			start := make(chan struct{})
+			var wg sync.WaitGroup
+			errs := make([]error, k)
+			conns := make([]net.Conn, k)
+			for i := 0; i < k; i++ {
+				i := i
+				wg.Add(1)
+				go func() {
+					defer wg.Done()
+					<-start
+					conns[i], errs[i] = rig.Dial(nodes[i], nodeenrollment.WithState(vkit.UniqueStruct(fmt.Sprintf("node-%d", i))), nodeenrollment.WithExtraAlpnProtos([]string{fmt.Sprintf("proto-of-node-%d", i), "shared"}))
+				}()
+			}
+			close(start)
+			wg.Wait()
+			outs := rig.Sync()
+			desc := map[string]any{"concurrent_nodes": k, "acceptors": acceptors, "option_slice": fmt.Sprintf("len=%d cap=%d", len(opts), cap(opts)), "round": r}
+			rec.Case(fmt.Sprintf("concurrent/spare=%v", spare >= 2), fmt.Sprint(desc), spare >= 2, func() any { return desc })
+			seen := 0
+			for _, o := range outs {
+				if o.Conn == nil {
+					continue
+				}
+				defer o.Conn.Close()
+				if !o.Authenticated() {
+					continue
+				}
+				seen++
+				pc := o.Conn.(*protocol.Conn)
+				st := pc.ClientState()
+				marker := ""
+				if st != nil && st.Fields["marker"] != nil {
+					marker = st.Fields["marker"].GetStringValue()
+				}
+				var id int
+				if _, err := fmt.Sscanf(marker, "node-%d", &id); err != nil {
+					vkit.Violate(t, prop, "C16/concurrent/state-differs", fmt.Sprintf("a connection reports state %q that no node sent", marker), desc)
+					return
+				}
+				want := fmt.Sprint([]string{fmt.Sprintf("proto-of-node-%d", id), "shared"})
+				var extras []string
+				for _, p := range pc.ClientNextProtos() {
+					if !strings.HasPrefix(p, "v1-nodee") {
+						extras = append(extras, p)
+					}
+				}
+				if fmt.Sprint(extras) != want {
+					vkit.Violate(t, prop, "C16/concurrent/metadata-of-two-nodes-mixed", fmt.Sprintf("the connection reporting the state of node %d reports the protocols %v", id, extras), desc)
+					return
+				}
+			}
+			for i := 0; i < k; i++ {
+				if conns[i] != nil {
+					defer conns[i].Close()
+				}
+				if errs[i] != nil {
+					vkit.Violate(t, prop, "C16/honest-dial-failed/concurrent", fmt.Sprintf("node %d: %v", i, errs[i]), desc)
+					return
+				}
+			}
+			if seen != k {
+				vkit.Violate(t, prop, "C16/no-authenticated-connection", fmt.Sprintf("%d nodes dialed, %d authenticated connections were returned", k, seen), desc)
+				return
+			}
 		}
 	})
 }
